@@ -49,7 +49,7 @@ CLAIMED = {
     "C06": ("Coq proof on Rand.v (sampling loop, tried set, re-hash at end_trial; invariant TInv and run-level pairwise distinctness for static spaces; bounded effort) + differential correspondence with RandomSearchOracle",
             "C06_sample_is_fresh: what _random_values returns is not in the tried set; C06_step: the invariant 'every stored trial is in the tried set under its id' is preserved and a newly created trial differs from every stored one; "
             "C06_distinct_run: in every reachable state of any run over a static space (tuners hand back the values they got, no reload) stored trials carry pairwise different values, for any seeded sample table, any number of tuners, "
-            "retries and failures; C06_bounded_effort: at most fuel*|space| seeded draws per request, then STOPPED. PARTIAL: growth of the space during the search and reloads are covered by the correspondence and by the "
+            "retries and failures; C06_bounded_effort: at most fuel*|space| seeded draws per request, then STOPPED. C06_distinct_run_reload: the same with save+reload at any point (tried set and id->hash table are saved state; values come back from the trial files, LSync.DSyncP). PARTIAL: growth of the space during the search is covered by the correspondence and by the "
             "implementation-level duplicate check (random, Hyperband first rounds, Bayesian warm-up), not by the theorem.",
             "Trusted: Coq kernel/vm_compute; python harness; sha256 modelled as identity on the values map (collision free, unambiguous k=v string); seeded samples enter as a recomputed table.", "DESIGN.md section 6 C06"),
     "C05": ("Coq proof of exact coverage by ensure_active_values on the container model (Cover.v) + domain theorems of C14 + implementation-level check of every issued trial on the four real oracles",
